@@ -10,6 +10,8 @@
   and the read-through oracle for now.
 -/
 import AferoVerif.Model.Cache
+import AferoVerif.Proofs.CowContent
+import AferoVerif.Proofs.Reach
 namespace AferoVerif.C10
 open AferoVerif AferoVerif.Cache
 
@@ -165,5 +167,32 @@ example : let c1 := (Cache.step 3600 c0 (.open_ "/f".toList)).1
 example : let c1 := (Cache.step 3600 c0 (.open_ "/f".toList)).1
     let c2 := Cache.setB c1 (c1.s.b.chtimes (keyOfStr "/f".toList) (-10)).1
     cacheStatus c2 3600 (keyOfStr "/f".toList) = .stale ∧ cacheStatus c2 0 (keyOfStr "/f".toList) = .hit := by decide
+
+/-! ### the copy made on a miss or for a stale entry is the base's content -/
+
+/-- **a read that is not served from the cache serves the base.** For a regular base file whose
+    status is miss or stale, Open succeeds; afterwards the cache layer holds under that name an
+    object with exactly the base's bytes and the base's modification time, the base is unchanged,
+    and the returned handle is a fresh read-only handle at offset 0 on that object. -/
+theorem miss_or_stale_serves_base (c : Cow) (dur : Int) (p : Str) (bf : Nat)
+    (hst : cacheStatus c dur (keyOfStr p) = .miss ∨ cacheStatus c dur (keyOfStr p) = .stale)
+    (hb : c.s.b.lookup (keyOfStr p) = some bf) (hfile : (c.s.b.obj bf).dir = false) (hr : MemFs.InRange c.s.l) :
+    ∃ lf i, (Cache.open_ c dur p).2 = .handle c.hs.length none ∧
+      (Cache.open_ c dur p).1.s.b = c.s.b ∧
+      (Cache.open_ c dur p).1.hs = c.hs ++ [.layer i] ∧
+      (Cache.open_ c dur p).1.s.l.handles[i]? = some { obj := lf, h := { readOnly := true } } ∧
+      (Cache.open_ c dur p).1.s.l.lookup (keyOfStr p) = some lf ∧
+      ((Cache.open_ c dur p).1.s.l.obj lf).data = (c.s.b.obj bf).data ∧
+      ((Cache.open_ c dur p).1.s.l.obj lf).mtime = (c.s.b.obj bf).mtime := by
+  have e : Cache.open_ c dur p = Cache.copyThenOpen c p (keyOfStr p) := by
+    rcases hst with h | h
+    · exact miss_routes c dur p bf h hb hfile
+    · exact stale_routes c dur p bf h hb hfile
+  rw [e]
+  exact copyThenOpen_serves_base c p bf hb hfile hr
+
+/-- the cache layer of any history satisfies the hypothesis above -/
+theorem layer_reachable_ok (ops : List Op) : MemFs.InRange (MemFs.run MemFs.init ops) :=
+  MemFs.reachable_inRange ops
 
 end AferoVerif.C10
